@@ -12,11 +12,14 @@ SIG_POS_ORDER = "sdn.parse.positional-map.uses-port-order-of-first-use"
 SIG_TOP_CLIMB = "sdn.parse.top.climbs-one-level-only"
 SIG_GLOB = "sdn.parse.rejects.glob-characters-in-escaped-identifier"
 
+SIG_PORT_ATTRS = "sdn.parse.port-declaration-attributes-dropped"
 SIG_MULTI = "sdn.parse.multi-name-wire-declaration.range-and-attributes-reach-first-name-only"
 SIG_ASC = "sdn.parse.ascending-range.read-as-descending"
 
 SIG_C04_EMPTY_BB = "compose-then-parse.rejects.portless-primitive-written-as-empty-celldefine-module"
 SIG_C04_ASSIGN = "compose.raises.assign-wider-than-one-bit"
+SIG_C04_UNDEF = "compose-then-parse.port-without-direction-comes-back-inout"
+SIG_C04_COLLIDE = "flatten-then-compose.hierarchical-name-equals-escaped-sibling.two-elements-one-identifier"
 SIG_C04_ASSIGN_SPLIT = "compose.raises.assign-over-several-cables-after-flatten"
 SIG_C04_FLATNAME = "compose-then-parse.rejects.hierarchical-name-written-unescaped"
 SIG_C04_CLONE = "clone.top-instance-references-original-definition.modules-written-twice"
@@ -364,7 +367,43 @@ def neutralise_grouped(design):
     return d
 
 
+def port_attrs(design):
+    return any(p.get("attrs") for m in design["modules"] if m["kind"] != "prim" and m["style"] == "header" for p in m["ports"])
+
+
+def neutralise_port_attrs(design):
+    d = copy.deepcopy(design)
+    for m in d["modules"]:
+        for p in m["ports"]:
+            if p.get("attrs"):
+                p["attrs"] = []
+    return d
+
+
+def hier_alias_wires(design):
+    """nets of the root named \\<instance>/<x>: the name flatten() gives (unescaped) to net x of that instance"""
+    root = next((m for m in design["modules"] if m["name"] == design["top"]), None)
+    if root is None:
+        return []
+    insts = {it["name"] for it in root["body"] if it["t"] == "inst"}
+    return [w["name"] for w in root["wires"] if w["name"].startswith("\\") and "/" in w["name"]
+            and w["name"][1:].split("/", 1)[0] in insts]
+
+
+def neutralise_hier_alias(design):
+    bad = set(hier_alias_wires(design))
+    names = set(_all_names(design))
+    ren = {}
+    for n in bad:
+        c = n.replace("/", "_")
+        while c in names:
+            c += "_"
+        ren[n] = c
+    return rename_design(design, lambda n: ren.get(n, n))
+
+
 C06_KNOWN = [
+    (SIG_PORT_ATTRS, port_attrs, neutralise_port_attrs),
     (SIG_MULTI, grouped_wires, neutralise_grouped),
     (SIG_ASC, has_asc, neutralise_asc),
     (SIG_EMPTY_PRIM, lambda d: bool(empty_prims(d)), neutralise_empty_prim),
@@ -374,9 +413,24 @@ C06_KNOWN = [
 ]
 
 C04_KNOWN = [
+    (SIG_C04_COLLIDE, lambda d: bool(hier_alias_wires(d)), neutralise_hier_alias),
     (SIG_C04_EMPTY_BB, lambda d: bool(portless_blackboxes(d)), neutralise_portless_bb),
     (SIG_C04_ASSIGN, lambda d: wide_assigns(d) > 0, neutralise_wide_assign),
 ]
+
+
+def active(table, pid):
+    """the part of a table whose findings are still open: fixed findings are no longer kept out of the random
+    stream (their sub-domains are ordinary inputs again); attribution keeps using the full table"""
+    import json
+    import os
+    here = os.path.dirname(os.path.dirname(os.path.dirname(os.path.abspath(__file__))))
+    try:
+        with open(os.path.join(here, "known_findings.d", "verilog.json")) as f:
+            fixed = {k["signature"] for k in json.load(f)["findings"] if k.get("status") == "fixed" and k["property"] == pid}
+    except Exception:                                         # noqa: BLE001
+        fixed = set()
+    return [e for e in table if e[0] not in fixed]
 
 
 def neutralise_all(design, table):
